@@ -244,6 +244,16 @@ def run(ctx):
                 'empty @is_you() { int x = \'a\' %% 0; }', 'empty @is_you() { write(1 / (1 - 1)); }', 'empty @is_you() { write(7 %% (2 - 2) is byte); }',
                 'int g = 1 / 0;\nempty @is_you() { }', 'const int A = 4 %% 0;\nempty @is_you() { write(A); }']:
         inputs.append((src.replace('%%', '%') + '\n', 2, 64, False, False, 'constant expression in a position'))
+    # a syntax error AT every kind of token (the diagnostic prints the offending token): literals with bytes that are not UTF-8,
+    # non-ASCII text, escapes, numbers, flavoured identifiers, keywords, symbols
+    TOKS = ['"\\xff\\xfe"', '"ok"', "'\\xff'", "'a'", '12', '0xFF', '1_000', 'name', '@you', '!def', 'true', 'if', 'while', '+', '??', '[', ']', '}', '"\u00e9\u4e16"', '"\\u{1F30E}"',
+            '"\\0\\x80"', "'\\0'", '"\\\\"', '"\\""', 'is', 'byte', '.length', ';', ',', '"a\\x00b"', '"\\xc3"', "'\\x80'"]
+    for a in TOKS:
+        for form in ('empty @is_you() { write(%s %s); }', 'empty @is_you() { int x = 1 %s %s; }', 'empty @is_you() { %s %s }', '%s %s', 'empty f(int %s %s) { }', 'empty @is_you() { write(1); } %s %s',
+                     'empty @is_you() { int[] a = [%s %s]; }', 'empty @is_you() { if (%s %s) { } }'):
+            b = rng.choice(TOKS)
+            inputs.append((form % (a, b) + '\n', 2, 64, False, False, 'syntax error at each kind of token'))
+            inputs.append((form % (b, a) + '\n', 2, 64, False, False, 'syntax error at each kind of token'))
     import sweeps
     for _ in range(40 * N):
         inputs.append((sweeps.label_hygiene_program(rng), rng.choice([2, 4]), 300, rng.random() < 0.3, False, 'identifiers that look like generated labels'))
